@@ -157,6 +157,7 @@ class Rec:
         self.ops = []
         self.stats = {}
         self.step = -1
+        self.coq3 = []
 
     def stat(self, k, n=1):
         self.stats[k] = self.stats.get(k, 0) + n
@@ -209,6 +210,8 @@ class Rec:
         r = {'seed': self.case.get('seed'), 'ops': self.ops, 'fails': self.fails, 'coq': [], 'stats': self.stats, 'nsteps': len(self.ops)}
         if getattr(self, 'api_list', None) is not None:
             r['api_list'] = self.api_list
+        if self.coq3:
+            r['coq3'] = self.coq3
         return r
 
 
@@ -322,6 +325,23 @@ def run_leglookup(case, R):
                     except Exception as e:
                         R.fail('C02', cls + '.get_qindex_of_charges', cond, 'raises-' + type(e).__name__, str(e)[:150])
                     break
+        # --- record for the Coq model (Model/LegLookup.v): get_charge of every block, look-ups of present / absent / random charges
+        try:
+            bc = [[int(x) for x in np.asarray(leg.get_charge(qi)).reshape(q)] for qi in range(nb)]
+            queries = []
+            cands = [list(c_) for c_ in bc] + [[int(x) for x in G.mv(mods, np.array(c_, dtype=QT))] for c_ in bc[:2]]
+            cands += [[rng.randint(-3, 3) if m == 1 else rng.randint(-1, m) for m in mods] for _ in range(3)]
+            for c_ in cands:
+                try:
+                    got = int(leg.get_qindex_of_charges(np.array(c_, dtype=QT)))
+                except ValueError:
+                    got = None
+                except Exception:
+                    got = -2
+                queries.append([c_, got])
+            R.coq3.append({'mods': list(mods), 'leg': {'sizes': ref.sizes(), 'charges': [list(r_) for r_ in rows], 'qconj': qc}, 'blockcharges': bc, 'queries': queries})
+        except Exception as e:
+            R.fail('C02', cls + '.get_charge', cond, 'raises-' + type(e).__name__, str(e)[:150])
         # --- get_qindex
         R.op(cls + '.get_qindex')
         for i in list(range(-n, n)) + [n, -n - 1]:
